@@ -9,7 +9,9 @@ import (
 	"bytes"
 	"fmt"
 	"reflect"
+	"sort"
 	"strings"
+	"sync"
 	"sync/atomic"
 
 	"github.com/elastos/Elastos.ELA/common"
@@ -18,6 +20,7 @@ import (
 	common2 "github.com/elastos/Elastos.ELA/core/types/common"
 	"github.com/elastos/Elastos.ELA/core/types/interfaces"
 
+	"verif/par"
 	"verif/wire"
 )
 
@@ -585,4 +588,115 @@ func (c *ctx) checkMsgLimits() {
 			c.mark(fmt.Sprintf("msglimit|%s|%d", sig, n-lim.Limit))
 		}
 	}
+}
+
+// ---------------------------------------------------------------------------------------------
+// per-field length limits
+
+// limitCap: lengths are probed up to this many bytes; a field that still round-trips there is
+// recorded as limitCap ("no limit below the cap": the 8 MB / 16 MiB limits).
+const limitCap = 1<<20 + 16
+
+// probeLimits finds, for every byte-string / string field of the value class, the largest length
+// that survives encode → decode (bisection; the boundary family above shows separately that the
+// var-int width changes do not break monotonicity). The result is keyed by case name + field path.
+func (c *ctx) probeLimits(bc bcase) map[string]int {
+	bc = cached(bc)
+	out := map[string]int{}
+	root := reflect.ValueOf(bc.build())
+	var leaves []leaf
+	lenLeaves(root, "", func(r reflect.Value) reflect.Value { return r }, &leaves, 0)
+	for _, lf := range leaves {
+		v := safeGet(lf, root)
+		if !v.IsValid() || !(v.Kind() == reflect.String || (v.Kind() == reflect.Slice && v.Type().Elem().Kind() == reflect.Uint8)) {
+			continue
+		}
+		// the transaction's own fields once (with the plain output), output payload fields per type
+		if strings.HasPrefix(bc.class, "txparts/out") && bc.class != "txparts/out0" && !strings.HasPrefix(lf.path, ".Outputs") {
+			continue
+		}
+		ok := func(n int) bool {
+			atomic.AddInt64(&c.evals, 1)
+			atomic.AddInt64(&c.limitProbes, 1)
+			st, _ := attempt(bc, lf, n)
+			return st == "ok"
+		}
+		if !ok(1) {
+			continue // not carried by this variant (or not a free field)
+		}
+		key := bc.name + lf.path
+		if ok(limitCap) {
+			out[key] = limitCap
+			continue
+		}
+		lo, hi := 1, limitCap // lo round-trips, hi does not
+		for hi-lo > 1 {
+			mid := lo + (hi-lo)/2
+			if ok(mid) {
+				lo = mid
+			} else {
+				hi = mid
+			}
+		}
+		out[key] = lo
+		if lo > 1 && !ok(lo-1) {
+			c.r.Violate("C04|field-limit|non-monotone|"+bc.class+"|"+fieldClass(lf.path), fmt.Sprintf("%s round-trips at length %d but not at %d", lf.path, lo, lo-1),
+				map[string]interface{}{"kind": "limit", "case": key})
+		}
+	}
+	return out
+}
+
+// checkLimits compares the probed limits with the pinned table (the tree's own rule at the time
+// of writing): a field whose largest round-tripping length moved, in either direction, changed
+// what is well-formed on the wire.
+func (c *ctx) checkLimits(cases []bcase, seq []bcase) (observed map[string]int, unpinned, vanished []string) {
+	observed = map[string]int{}
+	var mu sync.Mutex
+	classOf := map[string]string{}
+	pathOf := map[string]string{}
+	run := func(bc bcase) {
+		m := c.probeLimits(bc)
+		mu.Lock()
+		for k, v := range m {
+			observed[k] = v
+			classOf[k] = bc.class
+			pathOf[k] = strings.TrimPrefix(k, bc.name)
+		}
+		mu.Unlock()
+	}
+	par.Go(len(cases), func(i int) { c.guard("limit", cases[i].name, func() { run(cases[i]) }) })
+	for _, bc := range seq {
+		bc := bc
+		c.guard("limit", bc.name, func() { run(bc) })
+	}
+	for k, v := range observed {
+		want, ok := pinnedLimits[k]
+		if !ok {
+			unpinned = append(unpinned, k)
+			continue
+		}
+		if want != v {
+			path := pathOf[k]
+			desc := func(n int) string {
+				if n >= limitCap {
+					return fmt.Sprintf("no limit below %d", limitCap)
+				}
+				return fmt.Sprint(n)
+			}
+			c.r.Violate("C04|field-limit-changed|"+classOf[k]+"|"+fieldClass(path),
+				fmt.Sprintf("the largest length of %s that survives encode/decode is %s; the pinned limit of this field is %s", k, desc(v), desc(want)),
+				map[string]interface{}{"kind": "limit", "case": k, "observed": v, "pinned": want})
+		} else {
+			c.mark("limit|" + k)
+		}
+	}
+	for k := range pinnedLimits {
+		if _, ok := observed[k]; !ok {
+			vanished = append(vanished, k)
+		}
+	}
+	sort.Strings(unpinned)
+	sort.Strings(vanished)
+	return
 }
